@@ -620,6 +620,48 @@ def fam_deep(draw, max_n=300):
     return {"atoms": atoms, "bonds": [[a, b, 1] for a, b in edges], "family": "deep:" + kind}
 
 
+# ---- label pairs that collide under packed / truncated colour codes -----------------
+
+
+@st.composite
+def fam_collide(draw):
+    """Two atoms in symmetric positions of a small skeleton whose (Z, mass, rad) labels are
+    different but would coincide if the three fields were packed into one number with too narrow
+    fields (decimal or binary, e.g. rad 10+r vs mass m+1, mass 1000+m vs the next element) or
+    truncated.  Everything else is unlabelled, so confusing the two makes the molecule symmetric."""
+    b = draw(st.sampled_from([4, 8, 10, 16, 100, 128, 256, 1000, 1024, 4096, 65536]))
+    m0 = draw(st.sampled_from([0, 0, 1, 2, 12]))
+    r0 = draw(st.sampled_from([0, 0, 1, 2, 3]))
+    z = draw(st.sampled_from([6, 6, 1, 7, 26, 117]))
+    kind = draw(st.sampled_from(["rad_overflow", "mass_overflow", "rad_overflow"]))
+    if kind == "rad_overflow":
+        la, lb = (z, m0, b + r0), (z, m0 + 1, r0)
+    else:
+        la, lb = (z, b + m0, r0), (z + 1, m0, r0)
+    shape = draw(st.sampled_from(["pair", "bonded", "path3", "path4", "ring4", "ring6", "star"]))
+    fill = z
+    if shape == "pair":
+        zs, edges, pa, pb = [], [], 0, 1
+        n = 2
+    elif shape == "bonded":
+        n, edges, pa, pb = 2, [(0, 1)], 0, 1
+    elif shape == "path3":
+        n, edges, pa, pb = 3, [(0, 1), (1, 2)], 0, 2
+    elif shape == "path4":
+        n, edges, pa, pb = 4, [(0, 1), (1, 2), (2, 3)], draw(st.sampled_from([0, 1])), None
+        pb = 3 - pa
+    elif shape == "ring4":
+        n, edges, pa, pb = 4, _cycle(4), 0, draw(st.sampled_from([1, 2]))
+    elif shape == "ring6":
+        n, edges, pa, pb = 6, _cycle(6), 0, draw(st.sampled_from([1, 2, 3]))
+    else:
+        n, edges, pa, pb = 4, [(0, 1), (0, 2), (0, 3)], 1, 2
+    atoms = [[fill, 0, 0, 0, float(i), 0.0, 0.0] for i in range(n)]
+    atoms[pa][:3] = list(la)
+    atoms[pb][:3] = list(lb)
+    return {"atoms": atoms, "bonds": [[a, c, 1] for a, c in edges], "family": f"collide:{kind}:{b}"}
+
+
 # ---- four-digit indices at low cost ------------------------------------------------
 
 
@@ -728,7 +770,7 @@ def fam_corpus(draw, max_n=200):
 # ------------------------------------------------------------------------ mixtures
 
 
-def mols(tier="quick", families=("er", "skeleton", "wlhard", "chem", "deep", "corpus", "multi", "bigcheap"), wide=False):
+def mols(tier="quick", families=("er", "skeleton", "wlhard", "chem", "deep", "corpus", "multi", "bigcheap", "collide"), wide=False):
     q = tier == "quick"
     table = {
         "er": [fam_er(14 if q else 20, wide=wide), fam_er(8, wide=wide), fam_er(40 if q else 80, wide=wide)],
@@ -739,6 +781,7 @@ def mols(tier="quick", families=("er", "skeleton", "wlhard", "chem", "deep", "co
         "corpus": [fam_corpus(120 if q else 400)],
         "multi": [fam_multi(40 if q else 120)],
         "bigcheap": [fam_bigcheap()],
+        "collide": [fam_collide()],
     }
     parts = []
     for f in families:
